@@ -50,6 +50,8 @@ pub enum HOp {
 	MoveListener { pos: [f32; 3], dur: f64 },
 	MoveEmitter { pos: [f32; 3], dur: f64 },
 	Callback { frames: usize },
+	/// stop the sound with a fade of that many seconds: it must get there, listener or no listener
+	StopSound { fade: f64 },
 }
 
 #[derive(Clone, Debug, Serialize, Deserialize)]
@@ -64,6 +66,10 @@ pub enum Stream {
 		/// process call, by a set() with a tween of that many seconds
 		#[serde(default)]
 		relink: Option<(u64, f64)>,
+		/// no attenuation function and spatialization strength 0: the track passes its input through -
+		/// but still needs its listener
+		#[serde(default)]
+		pass_through: bool,
 	},
 	/// a spatial track (listener B, emitter e2) inside - optionally through a plain track -
 	/// a spatial track (listener A, emitter e1); the listeners may be dropped
@@ -134,6 +140,13 @@ fn gen_case(seed: u64, index: u64, tier: Tier) -> Case {
 		};
 		// (edge: the emitter exactly at one of the listener's ears, 0.1 to either side of its position)
 		let mut geo = geo;
+		// (edge: the same orientation given as a quaternion that is not of unit length)
+		if rng.chance(0.06) {
+			let k = *rng.pick(&[1.05f32, 2.0, 0.5, 3.0]);
+			for c in geo.rot.iter_mut() {
+				*c *= k;
+			}
+		}
 		if rng.chance(0.06) {
 			let q = Quat::from_xyzw(geo.rot[0], geo.rot[1], geo.rot[2], geo.rot[3]);
 			let side = if rng.chance(0.5) { Vec3::X } else { Vec3::NEG_X };
@@ -150,7 +163,10 @@ fn gen_case(seed: u64, index: u64, tier: Tier) -> Case {
 		let n = rng.urange(5, if tier == Tier::Quick { 24 } else { 60 });
 		let mut ops = vec![HOp::AddListener { pos: v3(&mut rng, 5.0) }];
 		while ops.len() < n {
-			ops.push(match rng.below(10) {
+			ops.push(match rng.below(11) {
+				10 => HOp::StopSound {
+					fade: *rng.pick(&[0.0, 2.0 * unit, 6.0 * unit]),
+				},
 				0 => HOp::DropListener,
 				1 => HOp::AddListener { pos: v3(&mut rng, 5.0) },
 				2 | 3 => HOp::MoveListener {
@@ -174,6 +190,7 @@ fn gen_case(seed: u64, index: u64, tier: Tier) -> Case {
 			nested: rng.chance(0.5),
 			map_in: *rng.pick(&[(0.0, 30.0), (1.0, 10.0), (20.0, 2.0)]),
 			relink: if rng.chance(0.4) { Some((rng.below(4), *rng.pick(&[0.0, 2.0 * unit, 5.0 * unit]))) } else { None },
+			pass_through: rng.chance(0.3),
 		}
 	};
 	Case { seed, stream }
@@ -500,7 +517,7 @@ impl Lerp {
 	}
 }
 
-fn run_history(ops: &[HOp], ibs: usize, nested: bool, map_in: (f64, f64), relink: Option<(u64, f64)>, res: &mut CaseResult, trace: &mut Hasher64, beh: &mut Hasher64) {
+fn run_history(ops: &[HOp], ibs: usize, nested: bool, map_in: (f64, f64), relink: Option<(u64, f64)>, pass_through: bool, res: &mut CaseResult, trace: &mut Hasher64, beh: &mut Hasher64) {
 	let Some(mut m) = manager(ibs) else { return };
 	let device = m.backend_mut().device.clone();
 	let sr = 8000.0f64;
@@ -515,8 +532,23 @@ fn run_history(ops: &[HOp], ibs: usize, nested: bool, map_in: (f64, f64), relink
 	let mut cb = 0u64;
 	let mut out = Vec::new();
 	let mut track_first_cb = 0u64;
+	let mut sound: Option<kira::sound::static_sound::StaticSoundHandle> = None;
+	// (audio seconds at which the sound must have stopped)
+	let mut stop_due: Option<f64> = None;
+	let mut stopped = false;
+	let mut now = 0.0f64;
 	for (oi, op) in ops.iter().enumerate() {
 		match op {
+			HOp::StopSound { fade } => {
+				if let (Some(s), None) = (sound.as_mut(), stop_due) {
+					s.stop(Tween {
+						duration: std::time::Duration::from_secs_f64(*fade),
+						..Default::default()
+					});
+					// (to within one callback, and one more for the command to be picked up)
+					stop_due = Some(now + *fade + 3.0 * (3 * ibs) as f64 / sr);
+				}
+			}
 			HOp::AddListener { pos } => {
 				if track.is_some() {
 					// a second listener: never the one the track listens through
@@ -525,17 +557,20 @@ fn run_history(ops: &[HOp], ibs: usize, nested: bool, map_in: (f64, f64), relink
 				}
 				let Ok(l) = m.add_listener(Vec3::from(*pos), Quat::IDENTITY) else { continue };
 				let mut b = SpatialTrackBuilder::new().distances((1.0, 50.0)).spatialization_strength(0.0);
+				if pass_through {
+					b = b.attenuation_function(None);
+				}
 				logs.push(b.add_effect(DistProbeBuilder { map_in, relink }));
 				let Ok(mut t) = m.add_spatial_sub_track(&l, e_model.value, b) else { continue };
 				if nested {
 					let mut cbld = TrackBuilder::new();
 					logs.push(cbld.add_effect(DistProbeBuilder { map_in, relink: None }));
 					if let Ok(mut c) = t.add_sub_track(cbld) {
-						let _ = c.play(dc(0.5, 0.5));
+						sound = c.play(dc(0.5, 0.5)).ok();
 						child = Some(c);
 					}
 				} else {
-					let _ = t.play(dc(0.5, 0.5));
+					sound = t.play(dc(0.5, 0.5)).ok();
 				}
 				l_model = Some((Lerp::fixed(Vec3::from(*pos)), cb, None));
 				track_first_cb = cb;
@@ -578,6 +613,22 @@ fn run_history(ops: &[HOp], ibs: usize, nested: bool, map_in: (f64, f64), relink
 				if let Some(p) = rep.panic {
 					res.fail(Violation::new("finite", format!("audio-panic: {}", panic_signature(&p)), format!("op {oi}: {p}")));
 					return;
+				}
+				now += *frames as f64 / sr;
+				if let (Some(due), Some(s)) = (stop_due, sound.as_ref()) {
+					let st = s.state();
+					stopped |= st == kira::sound::PlaybackState::Stopped;
+					if now > due && st != kira::sound::PlaybackState::Stopped {
+						res.fail(Violation::new(
+							"needs-listener",
+							"sound-life-cycle-stalls-on-spatial-track",
+							format!("op {oi} (callback {cb}): the sound on the spatial track{} was stopped and its fade is long over, but it still reports {st:?}", if listener.is_none() { " (whose listener has been dropped)" } else { "" }),
+						));
+						return;
+					}
+					if st == kira::sound::PlaybackState::Stopped {
+						res.hit("stops_on_spatial_tracks_completed");
+					}
 				}
 				if let Some((to, d)) = pending_l.take() {
 					if let Some(lm) = l_model.as_mut() {
@@ -666,7 +717,7 @@ fn run_history(ops: &[HOp], ibs: usize, nested: bool, map_in: (f64, f64), relink
 					}
 					offset += n;
 				}
-				if listener_present && track.is_some() && cb > track_first_cb {
+				if listener_present && track.is_some() && cb > track_first_cb && stop_due.is_none() {
 					let d = l_model.as_ref().map(|lm| (lm.0.value - e_model.value).length()).unwrap_or(0.0);
 					if d < 40.0 && out.iter().all(|s| *s == 0.0) && *frames > 0 {
 						res.fail(Violation::new("needs-listener", "silent-with-listener", format!("op {oi} (callback {cb}): listener present at distance {d} (max 50) but the output is silent")));
@@ -879,8 +930,8 @@ pub fn run_case(case: &Case) -> CaseResult {
 			beh.u64(*relation as u64);
 			beh.u64(trace.finish());
 		}
-		Stream::History { ops, ibs, nested, map_in, relink } => {
-			run_history(ops, *ibs, *nested, *map_in, *relink, &mut res, &mut trace, &mut beh);
+		Stream::History { ops, ibs, nested, map_in, relink, pass_through } => {
+			run_history(ops, *ibs, *nested, *map_in, *relink, *pass_through, &mut res, &mut trace, &mut beh);
 			beh.u64(*nested as u64);
 		}
 	}
@@ -896,7 +947,7 @@ impl Check for C15 {
 		CheckInfo {
 			id: "C15",
 			level: "exploration",
-			rule: "five streams. sched (1/24): a gameplay task adds a listener, a spatial track bound to it (optionally nested) and a sound while an audio task runs callbacks under seeded random schedules - the track must be audible afterwards; turn (1/12): the listener turns between two yaw angles given by quaternions of either sign (q / -q), instantly or over a few internal buffers, with the emitter on its right: every frame favours the right ear; nested (1/6): a spatial track (listener B) inside - directly or through a plain track - a spatial track (listener A) with a plain track below it, each with a FromListenerDistance probe, either listener dropped at a seeded callback; history (1/6): seeded history over {add listener (the first one gets a spatial track, optionally with a nested non-spatial child, each with a FromListenerDistance probe parameter and a DC sound), drop the listener, tween the listener position, tween the emitter position, callback} at a seeded internal buffer size - simulated on the device with a per-chunk reference of both positions; geometry (2/3): generated listener pose, emitter position, distance range (proper, equal, inverted, zero-based), attenuation curve, strength, edge classes (listener and emitter coincident; emitter exactly on one of the listener's ears), rendered through the manager and related to a second rendering (farther along the same ray, mirrored, rigidly moved, stereo input, the same scene with a linear roll-off) - plain input generation evaluated as cross-run invariants; non-trivial = every case renders; distinct = hash of the outputs / of the per-callback (listener present, chunks) sequence",
+			rule: "five streams. sched (1/24): a gameplay task adds a listener, a spatial track bound to it (optionally nested) and a sound while an audio task runs callbacks under seeded random schedules - the track must be audible afterwards; turn (1/12): the listener turns between two yaw angles given by quaternions of either sign (q / -q), instantly or over a few internal buffers, with the emitter on its right: every frame favours the right ear; nested (1/6): a spatial track (listener B) inside - directly or through a plain track - a spatial track (listener A) with a plain track below it, each with a FromListenerDistance probe, either listener dropped at a seeded callback; history (1/6): seeded history over {add listener (the first one gets a spatial track, optionally with a nested non-spatial child, each with a FromListenerDistance probe parameter and a DC sound), drop the listener, tween the listener position, tween the emitter position, stop the sound with a fade (it must reach Stopped with or without a listener), callback} at a seeded internal buffer size, 30% on a pass-through track (no attenuation function, spatialization strength 0: silent without a listener like any other spatial track) - simulated on the device with a per-chunk reference of both positions; geometry (2/3): generated listener pose, emitter position, distance range (proper, equal, inverted, zero-based), attenuation curve, strength, edge classes (listener and emitter coincident; emitter exactly on one of the listener's ears; the same orientation given as a quaternion that is not of unit length), rendered through the manager and related to a second rendering (farther along the same ray, mirrored, rigidly moved, stereo input, the same scene with a linear roll-off) - plain input generation evaluated as cross-run invariants; non-trivial = every case renders; distinct = hash of the outputs / of the per-callback (listener present, chunks) sequence",
 			assumptions: vec![
 				"the geometric relations (monotonicity, ear gains, mirror, rigid motion, stereo pass-through) are input-generation checks, not schedule- or fault-dependent; they are included because the same harness renders them, and are stated as such".into(),
 				"tolerances: 1e-4 on gains, 2e-3 / 3e-3 for mirrored / moved scenes (f32 quaternion arithmetic), rigid-motion comparison skipped within 1e-3 of a distance limit".into(),
@@ -924,11 +975,11 @@ impl Check for C15 {
 	fn shrink(&self, case: &Json) -> Vec<Json> {
 		let c: Case = serde_json::from_value(case.clone()).unwrap();
 		let mut out = vec![];
-		if let Stream::History { ops, ibs, nested, map_in, relink } = &c.stream {
+		if let Stream::History { ops, ibs, nested, map_in, relink, pass_through } = &c.stream {
 			let wrapped = serde_json::json!({ "ops": ops });
 			for v in shrink_ops_array(&wrapped, "ops") {
 				let ops: Vec<HOp> = serde_json::from_value(v["ops"].clone()).unwrap();
-				out.push(serde_json::to_value(Case { stream: Stream::History { ops, ibs: *ibs, nested: *nested, map_in: *map_in, relink: *relink }, ..c.clone() }).unwrap());
+				out.push(serde_json::to_value(Case { stream: Stream::History { ops, ibs: *ibs, nested: *nested, map_in: *map_in, relink: *relink, pass_through: *pass_through }, ..c.clone() }).unwrap());
 			}
 		}
 		out
